@@ -27,6 +27,9 @@ def plan(tier, seed):
                       "list_n": 2 if tier == "quick" else 3,
                       "str_n": 3 if tier == "quick" else 4,
                       "random": 1500 if tier == "quick" else 25000})
+    # two more shards (slices 0 and 1 of the enumerated spaces, fresh random streams) under `python -O`:
+    # assert statements compiled away, as PYTHONOPTIMIZE=1 deployments run
+    specs += [dict(specs[i], python_flags=["-O"]) for i in (0, 5)]
     return specs
 
 
